@@ -1132,7 +1132,12 @@ def _():
     out += _fp("tumble_body", " ; ".join(_stmt_texts(find_def(FM, "FullMatcher._tumble"))))
     out += _fp("check_body", " ; ".join(_stmt_texts(find_def(FM, "FullMatcher.check"))))
     out += _fp("do_match_body", " ; ".join(_stmt_texts(find_def(FM, "FullMatcher._do_match"))))
-    out += _fp("best_body", " ; ".join(_stmt_texts(find_def(FM, "FullMatcher._find_best_vector_match"))[-1:]))
+    best = find_def(FM, "FullMatcher._find_best_vector_match")
+    out += _fp("best_body", " ; ".join(_stmt_texts(best)[-1:]))
+    foms = [s for s in stmts_of(best) if isinstance(s, ast.FunctionDef) and s.name == "fom"]
+    if len(foms) != 1:
+        raise Missing("the figure of merit `fom` inside _find_best_vector_match")
+    out += _fp("fom_body", " ; ".join(_stmt_texts(foms[0])), "the figure of merit that ranks candidate matches")
     return out
 
 
